@@ -64,6 +64,27 @@ Theorem C17_reserved_free_is_the_compilers : forall e,
 Proof. exact reserved_free_split. Qed.
 Print Assumptions C17_reserved_free_is_the_compilers.
 
+(* THE QUANTIFIER IS A PREDICATE ON THE DECLARATION: about the three package scopes it asks only that the names
+   the USER puts there (block schemas and their enum values; method request / response messages and command
+   services; summary topics and messages) are pairwise distinct and differ from the generated names
+   ([user_names_ok]).  That the GENERATED names - six schemas, status values, the query service and its six
+   messages, the publish topic and its message - never collide among themselves holds for EVERY declaration
+   (status values: because their protobuf canonical names differ, decl_enums_ok), and the distinctness of the
+   whole scopes - the link step's package symbol tables - is DERIVED from it, not assumed *)
+Theorem C17_generated_names_never_collide : forall e,
+  (decl_enums_ok e = true -> NoDup (sp_main_generated e))
+  /\ NoDup (sp_service_generated e) /\ NoDup (sp_topic_generated e).
+Proof. intros e. exact (conj (generated_main_nodup e) (conj (generated_service_nodup e) (generated_topic_nodup e))). Qed.
+Print Assumptions C17_generated_names_never_collide.
+
+Theorem C17_scopes_distinct_from_user_names : forall e, in_quantifier e = true ->
+  NoDup (sp_main_scope e) /\ NoDup (sp_service_scope e) /\ NoDup (sp_topic_scope e).
+Proof.
+  intros e H. pose proof (quantified_of e H) as Q.
+  repeat split; apply nodup_bytes_NoDup; [exact (q_main e Q)|exact (q_service e Q)|exact (q_topic e Q)].
+Qed.
+Print Assumptions C17_scopes_distinct_from_user_names.
+
 (* the STRICT reading - "any name": every declaration in the quantifier compiles - is false, of the
    model and of the real compiler alike (each witness replayed on the real compiler by the correspondence
    on every run: class `reserved name`).  Not a defect any more: the rejection is the designed diagnostic. *)
@@ -143,13 +164,13 @@ Proof.
   exact (conj property_named_keys_in_scope
         (conj (proj1 optional_array_in_scope) (proj1 (proj2 optional_array_in_scope)))).
 Qed.
+Print Assumptions C17_unreserved_names.
 (* statuses that differ only in case (Active / ACTIVE) are one protobuf name twice: outside the quantifier
    and rejected by the compiler's enum diagnostic since fix 4fb405b *)
 Theorem C17_status_case_out_of_scope :
   in_quantifier status_case_sample = false /\ compile status_case_sample = Err "enum option conflict".
 Proof. exact status_case_out_of_scope. Qed.
 Print Assumptions C17_status_case_out_of_scope.
-Print Assumptions C17_unreserved_names.
 
 (* PARTIAL (2): for EVERY declaration the model compiles (in the quantifier or not, reserved
    names or not) the output satisfies the core specification; for declarations in the
